@@ -5,7 +5,7 @@ import itertools
 import random
 
 from .. import gen, scratch
-from ..e1run import verify_functions, prove_lemmas
+from ..e1run import Concrete, verify_functions, prove_lemmas
 from spec import sourcemap_v3 as v3
 
 LEVEL = 'other'
@@ -132,9 +132,10 @@ def synthetic_streams(tier, seed):
 def main(run, tier):
     sm = importlib.import_module('calmjs.parse.sourcemap')
     vlq = importlib.import_module('calmjs.parse.vlq')
-    run.explanation = ('Names / Bookkeeper / Book state machines by VCs from the real AST (E1, z3); sourcemap.write and '
-                       'normalize_mapping_line only by a bounded stand-in against an independent Source Map V3 decoder '
-                       '(spec/sourcemap_v3.py); VLQ layer proved under C10')
+    run.explanation = ('Names / Bookkeeper / Book state machines and normalize_mapping_line (loop contract over lines of any length: what a '
+                       'linearly interpolating consumer sees at every input segment) by VCs from the real AST (E1, z3); which path is made '
+                       'relative to which in verify_write_sourcemap_args (E1); sourcemap.write only by a bounded stand-in against an '
+                       'independent Source Map V3 decoder (spec/sourcemap_v3.py); VLQ layer proved under C10')
     for f in ('calmjs.parse.sourcemap', 'calmjs.parse.vlq'):
         run.function(f, scratch.sha256_file(scratch.module_path(f))[:16])
     run.floor = 30
@@ -144,6 +145,26 @@ def main(run, tier):
     verify_functions(run, cs, dict((c.qualname, c) for c in cs), {}, tier=tier, both=(tier == 'thorough'))
     from . import pathobl
     pathobl.add(run, tier)
+    # ---- E1: normalize_mapping_line, loop contract over lines of any length (contracts/normalize.py)
+    import contracts.normalize as cnorm
+    from spec import sourcemap_v3 as _v3s
+
+    def _ncall(args):
+        return sm.normalize_mapping_line(list(args[0]), args[1])
+
+    def _npost(args, res):
+        if isinstance(res, Exception):
+            return 'raised %r' % (res,)
+        return _v3s.normalized_line_defect(args[0], args[1], res[0], res[1])
+
+    def _ninputs(tier_, seed_):
+        base = [(), (0,), (2,), (0, 0, 0, 0), (3, 0, 0, 3), (3, 1, -1, 3), (0, 1, 0, 0), (3, 0, 1, -2), (3, 0, 0, 3, 1), (1, 0, 0, 3)]
+        for L in range(0, 4):
+            for line in itertools.product(base, repeat=L):
+                for carry in (0, 4):
+                    yield (line, carry)
+    nconc = Concrete('calmjs.parse.sourcemap:normalize_mapping_line', _ncall, _npost, _ninputs, bound='lines of <= 3 segments over 10 shapes')
+    verify_functions(run, cnorm.build(sm), {}, {nconc.qualname: nconc}, tier=tier, both=(tier == 'thorough'))
     # ---- bounded: normalize_mapping_line against its decode-view post-condition, exhaustively over short lines
     from spec import sourcemap_v3 as _v3
     segs = [(), (0,), (2,)] + [(dc, ds, dl, dsc) for dc in (0, 3) for ds in (0, 1, -1) for dl in (0, 1, -1) for dsc in (0, 3, -2)]
